@@ -43,7 +43,9 @@ defaults, buffers kept instead of copied, behaviour depending on --debug/-q verb
 missing final newlines, file names with extra dots, symbolic links, backslash path separators, undecodable bytes, NUL
 characters, non-ASCII package/file names, two-digit tab selectors, side files created on a first run, version-0 carts, the order of sections in a .p8 file, a Lua section
 that is last or alone in the file, all-black labels, CRLF in .lua sources, a temporary directory on another file system, `~` in
-paths, nested require() directories, empty packages, `?` in the directory part of a load path, tab-indented directives.
+paths, nested require() directories, empty packages, `?` in the directory part of a load path, tab-indented directives, `-->8` tab
+lines, identifiers that are keywords in another letter case, runs of blank lines, --lua-path together with PICO8_LUA_PATH,
+names with double underscores, an explicit label_fname, one-line blocks inside short-if lines, a selector after a .lua name.
 Look for something else, for example: a mask, shift or bit position that is off by one; signed/unsigned or 7-bit/8-bit handling;
 an inclusive/exclusive range end; integer division or rounding; the order in which two sections / options / passes are applied;
 an interaction between two command-line options or two library features that are each fine alone; a module-level table or
